@@ -124,7 +124,7 @@ func (b *binder) storesOf(region ast.Node, name string, loader bool) []flow.Stor
 
 // rhsCases returns the origins of the stored value.
 func (b *binder) rhsCases(st flow.Store) []flow.Case {
-	if st.RHS == nil {
+	if !st.Plain() {
 		return []flow.Case{{Unknown: "the field is modified in place or assigned from a multi-value expression"}}
 	}
 	return b.e.Values(st.Site, st.RHS)
@@ -234,7 +234,7 @@ func r4(c *core.Ctx, nbe *core.Fn, sw *ast.SwitchStmt) {
 			sts := b.storesOf(blk, "Type", false)
 			okT := len(sts) > 0
 			for _, st := range sts {
-				okT = okT && st.RHS != nil && b.sameAsTag(st.Site, st.RHS, sw)
+				okT = okT && st.Plain() && b.sameAsTag(st.Site, st.RHS, sw)
 			}
 			c.Check("R4.bind", "key-record/type", cc.Pos(), okT, "the entry carries the value type")
 			// value
@@ -242,7 +242,7 @@ func r4(c *core.Ctx, nbe *core.Fn, sw *ast.SwitchStmt) {
 			okV := len(sts) > 0
 			und := ""
 			for _, st := range sts {
-				if st.RHS == nil {
+				if !st.Plain() {
 					okV = false
 					continue
 				}
@@ -504,7 +504,7 @@ func (b *binder) luaByFlow(blk *ast.BlockStmt, sw *ast.SwitchStmt) bool {
 		vc = cs[0].Call
 	}
 	for _, st := range typs {
-		if st.RHS == nil || !b.sameAsTag(st.Site, st.RHS, sw) {
+		if !st.Plain() || !b.sameAsTag(st.Site, st.RHS, sw) {
 			return false
 		}
 	}
@@ -602,7 +602,7 @@ func r5cont(c *core.Ctx, nbe *core.Fn) {
 		sts := b.storesOf(b.loop.Body, "lastEntry", true)
 		ok := false
 		for _, st := range sts {
-			if st.RHS != nil && b.isEntry(st.Site, st.RHS) {
+			if st.Plain() && b.isEntry(st.Site, st.RHS) {
 				ok = true
 			}
 		}
